@@ -78,3 +78,42 @@ func BuildGood(items []int, idx []int) *node {
 	copy(items[1:], items[0:])
 	return &node{kids: []*node{BuildGood(items[:mid], idx[:mid]), BuildGood(items[mid:], idx[mid:])}}
 }
+
+// clean:PAIR
+func PairedTopTwo(ds []float64, ns []int) (float64, int) {
+	var best [2]float64
+	var who [2]int
+	for i, d := range ds {
+		if d >= best[0] {
+			best[1] = best[0]
+			who[1] = who[0]
+			best[0] = d
+			who[0] = ns[i]
+		} else if d > best[1] {
+			best[1] = d
+			who[1] = ns[i]
+		}
+	}
+	return best[1], who[1]
+}
+
+// want:PAIR the swap is applied to one of the parallel arrays only.
+func UnpairedTopTwo(ds []float64, ns []int) (float64, int) {
+	var best [2]float64
+	var who [2]int
+	for i, d := range ds {
+		if i < 2 {
+			best[i] = d
+			who[i] = ns[i]
+			if i == 1 && best[1] > best[0] {
+				best[0], best[1] = best[1], best[0]
+			}
+		} else if d >= best[0] {
+			best[1] = best[0]
+			who[1] = who[0]
+			best[0] = d
+			who[0] = ns[i]
+		}
+	}
+	return best[1], who[1]
+}
